@@ -1,11 +1,12 @@
 """Run-time support for replay scripts (no z3 needed; runs under the repository's interpreter)."""
 import importlib
+import os
 import re
 import sys
 import traceback
 import types
 
-from . import frontend
+from . import frontend, VERIF
 from .api import ConcreteCtx, NoConcrete, Ty, Module, _iface_lookup
 
 
@@ -247,6 +248,18 @@ def run_generic(module_names, qname, obligation, model):
         allowed = tuple(x for x in list(c.raises) + list(c.may_raise) + list(c.raises_only or ())
                         if isinstance(x, type))
         bad = not (allowed and isinstance(outcome[1], allowed))
+        if bad:
+            # raised by the sidecar code itself (a harness that names a function which no longer exists, a
+            # spec helper): not an exception of the repository's code
+            tb = outcome[1].__traceback__
+            last = None
+            while tb is not None:
+                last = tb.tb_frame.f_code.co_filename
+                tb = tb.tb_next
+            if last and os.path.abspath(last).startswith(os.path.abspath(VERIF) + os.sep):
+                print('the exception is raised by the sidecar code (%s), not by the code under contract: '
+                      'not counted as a reproduction' % os.path.relpath(last, VERIF))
+                return 2
         if bad and isinstance(outcome[1], (TypeError, AttributeError)) and \
                 any(w in str(outcome[1]) for w in ('Stub_', '_Anything', 'stub ')):
             print('the exception comes from a stand-in object of the rebuilt input (a stub that is not callable / '
